@@ -7,7 +7,9 @@
 (*                                                                          *)
 (*   close endpoint -> abort pending connecting tasks -> join the           *)
 (*   connection handlers -> deregister what cancelled handlers left behind  *)
-(*   -> bounded wait for the endpoint to drain -> rebind -> reply           *)
+(*   -> bounded wait for the endpoint to drain -> rebind -> the manager's   *)
+(*   state is dropped (mailbox first, its clone of the service last)        *)
+(*   -> reply                                                               *)
 (*                                                                          *)
 (* A handler that sees its connection end deregisters its peer (and sends   *)
 (* LostPeer); a handler that is cancelled does not.                         *)
@@ -16,59 +18,73 @@ EXTENDS Naturals, FiniteSets, TLC
 
 CONSTANTS Handlers, Teardown     \* Teardown: may the runtime be torn down
 
-VARIABLES mgr, hs, act, rt, panicked, replied, lostSent
-vars == <<mgr, hs, act, rt, panicked, replied, lostSent>>
+Mgr == 0      \* the manager as a holder of a service clone (0 is not a handler)
+
+VARIABLES mgr, hs, act, rt, panicked, replied, lostSent,
+          svc,    \* who holds a clone of the user's service: Mgr and handlers (for their in-flight requests)
+          mbox    \* the manager's mailbox: "open" | "closed" (what Sender::closed() observes)
+vars == <<mgr, hs, act, rt, panicked, replied, lostSent, svc, mbox>>
 
 Init == /\ mgr = "running" /\ hs = [h \in Handlers |-> "alive"] /\ act = Handlers /\ rt = "up"
         /\ panicked = FALSE /\ replied = FALSE /\ lostSent = {}
+        /\ svc = Handlers \cup {Mgr} /\ mbox = "open"
 
 Up == rt = "up"
 
-ShutBegin == Up /\ mgr = "running" /\ mgr' = "closed" /\ UNCHANGED <<hs, act, rt, panicked, replied, lostSent>>
-AbortPending == Up /\ mgr = "closed" /\ mgr' = "joining" /\ UNCHANGED <<hs, act, rt, panicked, replied, lostSent>>
+ShutBegin == Up /\ mgr = "running" /\ mgr' = "closed" /\ UNCHANGED <<hs, act, rt, panicked, replied, lostSent, svc, mbox>>
+AbortPending == Up /\ mgr = "closed" /\ mgr' = "joining" /\ UNCHANGED <<hs, act, rt, panicked, replied, lostSent, svc, mbox>>
 
 (* the endpoint is closed: the handler's accept calls fail with LocallyClosed *)
 HandlerExit(h) ==
   /\ Up /\ hs[h] = "alive" /\ mgr # "running"
   /\ hs' = [hs EXCEPT ![h] = "exited"] /\ act' = act \ {h} /\ lostSent' = lostSent \cup {h}
-  /\ UNCHANGED <<mgr, rt, panicked, replied>>
+  /\ svc' = svc \ {h}          \* its in-flight request tasks were aborted and awaited
+  /\ UNCHANGED <<mgr, rt, panicked, replied, mbox>>
 
 Joined ==
   /\ Up /\ mgr = "joining" /\ \A h \in Handlers : hs[h] # "alive"
   /\ mgr' = "cleanup"
-  /\ UNCHANGED <<hs, act, rt, panicked, replied, lostSent>>
+  /\ UNCHANGED <<hs, act, rt, panicked, replied, lostSent, svc, mbox>>
 
 (* deregister what cancelled handlers left behind *)
 Cleanup ==
   /\ mgr = "cleanup"
   /\ lostSent' = lostSent \cup act /\ act' = {} /\ mgr' = "draining"
-  /\ UNCHANGED <<hs, rt, panicked, replied>>
+  /\ UNCHANGED <<hs, rt, panicked, replied, svc, mbox>>
 
-Drained == Up /\ mgr = "draining" /\ mgr' = "done" /\ replied' = TRUE
-           /\ UNCHANGED <<hs, act, rt, panicked, lostSent>>
+(* shutdown(self) returns: the manager's fields are dropped in declaration order - the mailbox *)
+(* early, the clone of the service last - and only then is the caller of shutdown() answered   *)
+Drained == Up /\ mgr = "draining" /\ mgr' = "dropping" /\ mbox' = "closed"
+           /\ UNCHANGED <<hs, act, rt, panicked, replied, lostSent, svc>>
+DropState == mgr = "dropping" /\ mgr' = "dropped" /\ svc' = svc \ {Mgr}
+           /\ UNCHANGED <<hs, act, rt, panicked, replied, lostSent, mbox>>
+Reply == Up /\ mgr = "dropped" /\ mgr' = "done" /\ replied' = TRUE
+           /\ UNCHANGED <<hs, act, rt, panicked, lostSent, svc, mbox>>
 
 (* the runtime goes away: tasks are dropped in any order; joining a cancelled handler *)
 (* completes (with a cancellation error), so the manager may still get to run a step  *)
-RuntimeDown == Teardown /\ Up /\ rt' = "down" /\ UNCHANGED <<mgr, hs, act, panicked, replied, lostSent>>
-HandlerCancelled(h) == rt = "down" /\ hs[h] = "alive" /\ hs' = [hs EXCEPT ![h] = "cancelled"]
-                       /\ UNCHANGED <<mgr, act, rt, panicked, replied, lostSent>>
+RuntimeDown == Teardown /\ Up /\ rt' = "down" /\ UNCHANGED <<mgr, hs, act, panicked, replied, lostSent, svc, mbox>>
+HandlerCancelled(h) == rt = "down" /\ hs[h] = "alive" /\ hs' = [hs EXCEPT ![h] = "cancelled"] /\ svc' = svc \ {h}
+                       /\ UNCHANGED <<mgr, act, rt, panicked, replied, lostSent, mbox>>
 MgrCancelled == rt = "down" /\ mgr \in {"running", "closed", "joining", "draining"} /\ mgr' = "cancelled"
-                /\ UNCHANGED <<hs, act, rt, panicked, replied, lostSent>>
+                /\ UNCHANGED <<hs, act, rt, panicked, replied, lostSent, svc, mbox>>
 (* the manager is mid-poll on another worker while the runtime shuts down: it observes the *)
 (* cancelled handlers through join_next and carries on synchronously                       *)
 JoinedDuringTeardown ==
   /\ rt = "down" /\ mgr = "joining" /\ \A h \in Handlers : hs[h] # "alive"
   /\ mgr' = "cleanup"
-  /\ UNCHANGED <<hs, act, rt, panicked, replied, lostSent>>
+  /\ UNCHANGED <<hs, act, rt, panicked, replied, lostSent, svc, mbox>>
 
-Next == ShutBegin \/ AbortPending \/ Joined \/ Cleanup \/ Drained \/ RuntimeDown \/ MgrCancelled \/ JoinedDuringTeardown
+Next == ShutBegin \/ AbortPending \/ Joined \/ Cleanup \/ Drained \/ DropState \/ Reply \/ RuntimeDown \/ MgrCancelled \/ JoinedDuringTeardown
         \/ \E h \in Handlers : HandlerExit(h) \/ HandlerCancelled(h)
 Spec == Init /\ [][Next]_vars
 
 NoPanic == ~panicked
 (* once the manager has passed the join, nothing is registered any more, and every peer that *)
 (* was registered had its LostPeer sent                                                       *)
-Released == mgr \in {"draining", "done"} => (act = {} /\ lostSent = Handlers)
+Released == mgr \in {"draining", "dropping", "dropped", "done"} => (act = {} /\ lostSent = Handlers)
 RepliedOnlyWhenDone == replied => mgr = "done"
-Invariants == NoPanic /\ Released /\ RepliedOnlyWhenDone
+(* when shutdown() returns no clone of the user's service is left and the mailbox is closed *)
+ServiceReleased == replied => (svc = {} /\ mbox = "closed")
+Invariants == NoPanic /\ Released /\ RepliedOnlyWhenDone /\ ServiceReleased
 =============================================================================
